@@ -139,10 +139,59 @@ Definition enc_name (n : N) : str :=
 Definition e_wres (r : res (option stream * option stream)) : sexp :=
   e_res (fun p => L [e_opt e_stream (fst p); e_opt e_stream (snd p)]) r.
 
+(* one call on a reader / writer object of a shipped plug-in with recording bodies
+   (plugin 0 = bibtex, 1 = yaml, 2 = bibtexml); the reader call threads the parser's data *)
+Definition reader_call (pl : Z) (cd : codec) (entry : Z) (x : sexp) (data : list stream) : res (list stream) :=
+  if Z.eqb pl 0 then
+    (if Z.eqb entry 0 then bibtex_parse_string _ probe_ps (d_str x) data
+     else if Z.eqb entry 1 then bibtex_parse_bytes _ probe_ps cd (d_str x) data
+     else bibtex_parse_file _ probe_ps cd (d_fsrc x) data)
+  else if Z.eqb pl 1 then
+    (if Z.eqb entry 0 then yaml_parse_string _ probe_ps cd (d_str x) data
+     else if Z.eqb entry 1 then yaml_parse_bytes _ probe_ps cd (d_str x) data
+     else yaml_parse_file _ probe_ps cd (d_fsrc x) data)
+  else
+    let fs := fun b : str => Ok (SBytes b) in
+    let pa := fun s : stream => Ok s in
+    (if Z.eqb entry 0 then xml_parse_string _ _ fs probe_ps cd (d_str x) data
+     else if Z.eqb entry 1 then xml_parse_bytes _ _ fs probe_ps (d_str x) data
+     else xml_parse_file _ _ pa probe_ps cd (d_fsrc x) data).
+Definition writer_call (pl : Z) (cn : N) (entry : Z) (d : str) (dst : wdst) : sexp :=
+  let cd := codec_of cn in
+  if Z.eqb pl 0 then
+    let ws := probe_ws cd true in
+    if Z.eqb entry 0 then e_res e_str (bibtex_to_string _ ws cd d)
+    else if Z.eqb entry 1 then e_res e_str (bibtex_to_bytes _ ws cd d)
+    else e_wres (bibtex_write_file _ ws cd d dst)
+  else if Z.eqb pl 1 then
+    let dump_text := fun d : str => probe_head d (Ok d) in
+    let dump_utf8 := fun d : str => probe_head d (match enc codec_utf8 d with Some b => Ok b | None => Crash end) in
+    if Z.eqb entry 0 then e_res e_str (yaml_to_string _ dump_text d)
+    else if Z.eqb entry 1 then e_res e_str (yaml_to_bytes _ dump_utf8 d)
+    else e_wres (yaml_write_file _ dump_utf8 cd d dst)
+  else
+    let body := fun d : str => probe_head d (Ok d) in
+    let nm := enc_name cn in
+    if Z.eqb entry 0 then e_res e_str (xml_to_string _ body d)
+    else if Z.eqb entry 1 then e_res e_str (xml_to_bytes _ body cd nm d)
+    else e_wres (xml_write_file _ body cd nm d dst).
+(* a history of calls on ONE reader object: the data accumulate; the history ends with the
+   first call that raises *)
+Fixpoint reader_history (pl : Z) (cd : codec) (calls : list sexp) (data : list stream) : list sexp :=
+  match calls with
+  | [] => []
+  | c :: rest =>
+    let r := reader_call pl cd (d_Z (d_nth c 0)) (d_nth c 1) data in
+    e_res (e_list e_stream) r ::
+    match r with Ok data' => reader_history pl cd rest data' | _ => [] end
+  end.
+
 (* 1: registry history   2: splitext   3: _open / open_raw / open_unicode
    4: reader entry points of a probe parser   5: writer entry points of a probe writer
    6: module-level functions over a registry state
-   7: (no model: oracle only)   8: _open on a real file-system scenario (result only) *)
+   7: (no model: oracle only)   8: _open on a real file-system scenario (result only)
+   9: one call / 10: a history of calls on one object of a shipped plug-in (recording bodies)
+   11: (no model: oracle only) histories on real plug-in objects *)
 Definition dispatch (fn : Z) (a : sexp) : sexp :=
   match fn with
   | 1%Z =>
@@ -172,50 +221,19 @@ Definition dispatch (fn : Z) (a : sexp) : sexp :=
     e_open_out t o
   | 7%Z => L [A 0%Z; L []]        (* the real plug-ins' bodies are not modelled: oracle only *)
   | 9%Z =>
-    (* the dispatch of the three shipped plug-ins with recording bodies: (plugin, writer?, codec,
-       entry, payload, destination); plugin 0 = bibtex, 1 = yaml, 2 = bibtexml *)
+    (* one call on a shipped plug-in with recording bodies: (plugin, writer?, codec, entry, payload, destination) *)
+    if d_bool (d_nth a 1)
+    then writer_call (d_Z (d_nth a 0)) (d_N (d_nth a 2)) (d_Z (d_nth a 3)) (d_str (d_nth a 4)) (d_wdst (d_nth a 5))
+    else e_res (e_list e_stream) (reader_call (d_Z (d_nth a 0)) (codec_of (d_N (d_nth a 2))) (d_Z (d_nth a 3)) (d_nth a 4) [])
+  | 10%Z =>
+    (* a history of calls (entry, payload, destination) on ONE object: (plugin, writer?, codec, calls).
+       A writer object carries no state: every call is answered as if it were the only one. *)
     let pl := d_Z (d_nth a 0) in
-    let rw := d_bool (d_nth a 1) in
     let cn := d_N (d_nth a 2) in
-    let cd := codec_of cn in
-    let entry := d_Z (d_nth a 3) in
-    let x := d_nth a 4 in
-    if rw then
-      let d := d_str x in
-      let dst := d_wdst (d_nth a 5) in
-      if Z.eqb pl 0 then
-        let ws := probe_ws cd true in
-        if Z.eqb entry 0 then e_res e_str (bibtex_to_string _ ws cd d)
-        else if Z.eqb entry 1 then e_res e_str (bibtex_to_bytes _ ws cd d)
-        else e_wres (bibtex_write_file _ ws cd d dst)
-      else if Z.eqb pl 1 then
-        let dump_text := fun d : str => probe_head d (Ok d) in
-        let dump_utf8 := fun d : str => probe_head d (match enc codec_utf8 d with Some b => Ok b | None => Crash end) in
-        if Z.eqb entry 0 then e_res e_str (yaml_to_string _ dump_text d)
-        else if Z.eqb entry 1 then e_res e_str (yaml_to_bytes _ dump_utf8 d)
-        else e_wres (yaml_write_file _ dump_utf8 cd d dst)
-      else
-        let body := fun d : str => probe_head d (Ok d) in
-        let nm := enc_name cn in
-        if Z.eqb entry 0 then e_res e_str (xml_to_string _ body d)
-        else if Z.eqb entry 1 then e_res e_str (xml_to_bytes _ body cd nm d)
-        else e_wres (xml_write_file _ body cd nm d dst)
-    else
-      e_res (e_list e_stream)
-        (if Z.eqb pl 0 then
-           (if Z.eqb entry 0 then bibtex_parse_string _ probe_ps (d_str x) []
-            else if Z.eqb entry 1 then bibtex_parse_bytes _ probe_ps cd (d_str x) []
-            else bibtex_parse_file _ probe_ps cd (d_fsrc x) [])
-         else if Z.eqb pl 1 then
-           (if Z.eqb entry 0 then yaml_parse_string _ probe_ps cd (d_str x) []
-            else if Z.eqb entry 1 then yaml_parse_bytes _ probe_ps cd (d_str x) []
-            else yaml_parse_file _ probe_ps cd (d_fsrc x) [])
-         else
-           let fs := fun b : str => Ok (SBytes b) in
-           let pa := fun s : stream => Ok s in
-           (if Z.eqb entry 0 then xml_parse_string _ _ fs probe_ps cd (d_str x) []
-            else if Z.eqb entry 1 then xml_parse_bytes _ _ fs probe_ps (d_str x) []
-            else xml_parse_file _ _ pa probe_ps cd (d_fsrc x) []))
+    if d_bool (d_nth a 1)
+    then L (map (fun c => writer_call pl cn (d_Z (d_nth c 0)) (d_str (d_nth c 1)) (d_wdst (d_nth c 2))) (d_items (d_nth a 3)))
+    else L (reader_history pl (codec_of cn) (d_items (d_nth a 3)) [])
+  | 11%Z => L [A 0%Z; L []]       (* histories on the real plug-in objects: oracle only *)
   | 4%Z =>
     let u := d_bool (d_nth a 0) in
     let cd := codec_of (d_N (d_nth a 1)) in
